@@ -14,3 +14,26 @@ Proof.
 Qed.
 
 End IsoProofs.
+
+(* side conditions on the translated constants the dispatcher model branches on: the what-codes it tells apart are pairwise
+   distinct and lie inside the command range (so no branch of [dispatch] shadows another), the three privilege bits are
+   distinct and below PR_NUM_PRIVILEGES.  Re-checked whenever reflector/StorageReflectConstants.h changes. *)
+Lemma dispatch_codes_ok :
+  NoDup [c_PR_COMMAND_KICK; c_PR_COMMAND_ADDBANS; c_PR_COMMAND_ADDREQUIRES; c_PR_COMMAND_REMOVEBANS; c_PR_COMMAND_REMOVEREQUIRES;
+         c_PR_COMMAND_PING; c_PR_COMMAND_GETPARAMETERS; c_PR_COMMAND_GETDATATREES; c_PR_COMMAND_SETDATATREES; c_PR_COMMAND_NOOP;
+         c_PR_COMMAND_JETTISONRESULTS; c_PR_COMMAND_JETTISONDATATREES; c_PR_COMMAND_SETPARAMETERS; c_PR_COMMAND_REMOVEPARAMETERS;
+         c_PR_COMMAND_SETDATA; c_PR_COMMAND_REMOVEDATA; c_PR_COMMAND_GETDATA; c_PR_COMMAND_BATCH; c_PR_COMMAND_INSERTORDEREDDATA;
+         c_PR_COMMAND_REORDERDATA] /\
+  forallb in_command_range
+        [c_PR_COMMAND_KICK; c_PR_COMMAND_ADDBANS; c_PR_COMMAND_ADDREQUIRES; c_PR_COMMAND_REMOVEBANS; c_PR_COMMAND_REMOVEREQUIRES;
+         c_PR_COMMAND_PING; c_PR_COMMAND_GETPARAMETERS; c_PR_COMMAND_GETDATATREES; c_PR_COMMAND_SETDATATREES; c_PR_COMMAND_NOOP;
+         c_PR_COMMAND_JETTISONRESULTS; c_PR_COMMAND_JETTISONDATATREES; c_PR_COMMAND_SETPARAMETERS; c_PR_COMMAND_REMOVEPARAMETERS;
+         c_PR_COMMAND_SETDATA; c_PR_COMMAND_REMOVEDATA; c_PR_COMMAND_GETDATA; c_PR_COMMAND_BATCH; c_PR_COMMAND_INSERTORDEREDDATA;
+         c_PR_COMMAND_REORDERDATA] = true /\
+  NoDup [c_PR_PRIVILEGE_KICK; c_PR_PRIVILEGE_ADDBANS; c_PR_PRIVILEGE_REMOVEBANS] /\
+  forallb (fun b => N.ltb b c_PR_NUM_PRIVILEGES) [c_PR_PRIVILEGE_KICK; c_PR_PRIVILEGE_ADDBANS; c_PR_PRIVILEGE_REMOVEBANS] = true /\
+  N.ltb c_PR_RESULT_ERRORACCESSDENIED c_BEGIN_PR_COMMANDS || N.ltb c_END_PR_COMMANDS c_PR_RESULT_ERRORACCESSDENIED = true.
+Proof.
+  repeat split; try (vm_compute; reflexivity);
+    repeat (constructor; [vm_compute; intuition discriminate|]); constructor.
+Qed.
